@@ -1,4 +1,5 @@
 import PhysisModel.Proofs.ExcelIndex
+import PhysisModel.Generated.ExcelCodes
 /-!
 # C05 — Excel sheets decode to the cell values stored in them
 
@@ -188,5 +189,22 @@ two entries; `exSchema` has a page 0 -/
 example : ([0x49, 0x74, 0x65, 0x6d] : Bytes) ∈
     ([([0x41], 1), ([0x49, 0x74, 0x65, 0x6d], 2)] : List (Bytes × Int)).map (·.1) ∧
     0 < exSchema.pages.length := by decide
+
+/-- (T2) The model's code tables are the compiled reader's: the harness pushes **every** u16 /
+u8 through the compiled `EXH::from_existing` as a column-type / language code and dumps the accepted
+ones with the variant they decode to (and `get_language_code`); these are exactly the model's
+`ColumnDataType` / `Language` tables.  With `c05_exh_roundtrip` this also ties the *spec's* codes
+(`ColType.code`, `Lang.code`, `Lang.suffix`) to the compiled code. -/
+theorem c05_code_tables :
+    Generated.excelColumnCodes = ColumnDataType.all.map (fun t => (t.code.toNat, t)) ∧
+    Generated.excelLanguageCodes = Language.all.map (fun l => (l.code.toNat, l, getLanguageCode l)) ∧
+    (∀ t : ColType, (toModelType t).code = t.code) ∧
+    (∀ l : Lang, (toModelLang l).code = l.code ∧ getLanguageCode (toModelLang l) = l.suffix) := by
+  refine ⟨by decide, by decide, ?_, ?_⟩
+  · intro t
+    cases t with
+    | packedBool b => revert b; decide
+    | _ => rfl
+  · intro l; cases l <;> exact ⟨rfl, rfl⟩
 
 end Physis.C05
